@@ -6,7 +6,11 @@ import (
 	"math/rand"
 	"time"
 
+	"github.com/go-logr/logr"
+	"github.com/klauspost/compress/s2"
 	"github.com/pckhoi/meow"
+	"github.com/wrgl/wrgl/pkg/dprof"
+	"github.com/wrgl/wrgl/pkg/ingest"
 	"github.com/wrgl/wrgl/pkg/encoding/packfile"
 	"github.com/wrgl/wrgl/pkg/misc"
 	"github.com/wrgl/wrgl/pkg/objects"
@@ -28,6 +32,10 @@ type c06Input struct {
 	Content string    `json:"content,omitempty"`
 	PKIdx  []uint32   `json:"pkIdx,omitempty"`
 	Spec   *TableSpec `json:"spec,omitempty"`
+	// store histories (op "savehist") and refreshes of derived objects over an existing state (op "refresh")
+	Ops       []c06StoreOp `json:"ops,omitempty"`
+	Mode      string       `json:"mode,omitempty"`
+	StaleSpec *TableSpec   `json:"staleSpec,omitempty"`
 }
 
 type c06Table struct {
@@ -373,6 +381,24 @@ func c06Profile(t *TableSpec) Res {
 
 func runC06(ctx *Ctx) {
 	r := ctx.R
+	if ctx.Idx%32 == 15 {
+		ops := genStoreHistory(r)
+		rekeyed, resaved := c06HistoryShape(ops)
+		tags := []string{"store-history"}
+		if rekeyed {
+			tags = append(tags, "key-rewritten-with-other-content")
+		}
+		if resaved {
+			tags = append(tags, "same-content-saved-again")
+		}
+		ctx.Emit("savehist", c06Input{Ops: ops}, c06SaveHist(ops), rekeyed || resaved, tags...)
+		return
+	}
+	if ctx.Idx%64 == 31 {
+		in := genRefresh(r)
+		ctx.Emit("refresh", in, c06Refresh(in.Spec, in.Mode, in.StaleSpec), in.Mode != "same", "refresh-over-"+in.Mode)
+		return
+	}
 	if ctx.Idx%16 == 8 {
 		n := r.Intn(6)
 		if r.Intn(5) == 0 {
@@ -517,5 +543,479 @@ func corpusC06(ctx *Ctx, op string, raw json.RawMessage) {
 		if in.Spec != nil {
 			ctx.Emit(op, in, c06Profile(in.Spec), true, "corpus")
 		}
+	case "savehist":
+		ctx.Emit(op, in, c06SaveHist(in.Ops), true, "corpus")
+	case "refresh":
+		if in.Spec != nil {
+			ctx.Emit(op, in, c06Refresh(in.Spec, in.Mode, in.StaleSpec), true, "corpus")
+		}
 	}
+}
+
+// ---- the store as a function of its history ---------------------------------------------------
+//
+// A case is a short history of Save*/Delete* calls on ONE store, in which keys are written more than
+// once: the same content again (content-addressed kinds) and other content under the same key (table
+// index and table profile are keyed by the sum of the table they describe, not by their own bytes).
+// After every step the key just addressed is read back three ways (Exist, raw bytes, typed Get* and
+// re-encode), at the end the whole store is dumped. The expectation is the finite map of
+// lean/WrglModel/Model/ObjStore.lean; the content hash is a parameter of that model: it is computed
+// here with meow directly and handed over as "digests" (one per operation).
+
+type c06StoreOp struct {
+	Op      string `json:"op"`   // save | delete
+	Kind    string `json:"kind"` // block | blockindex | table | tableindex | commit | profile
+	Sum     string `json:"sum,omitempty"`     // hex: table sum (save of tableindex/profile), identifier to delete
+	Content string `json:"content,omitempty"` // hex
+	Valid   bool   `json:"valid,omitempty"`   // content is a well-formed object of its kind
+}
+
+type c06StepObs struct {
+	Err    bool    `json:"err"`
+	Sum    *string `json:"sum"`    // what Save* returned (content-addressed kinds)
+	Exists bool    `json:"exists"` // <Kind>Exist after the step
+	Stored *string `json:"stored"` // bytes under the key after the step (s2-decoded for block, block index)
+	Typed  *string `json:"typed"`  // save of a well-formed object: typed Get* of the key, re-encoded
+}
+
+var c06Prefix = map[string]string{"block": "blk/", "blockindex": "blkidx/", "table": "tbl/", "tableindex": "tblidx/", "commit": "com/", "profile": "tblsum/"}
+
+func c06ByContent(kind string) bool { return kind != "tableindex" && kind != "profile" }
+
+func strp(s string) *string { return &s }
+
+// c06Plain undoes the compression of the two compressed kinds.
+func c06Plain(kind string, raw []byte) string {
+	if kind == "block" || kind == "blockindex" {
+		dec, err := s2.Decode(nil, raw)
+		if err != nil {
+			return "!" + hx(raw)
+		}
+		return hx(dec)
+	}
+	return hx(raw)
+}
+
+func c06KindOfKey(key string) string {
+	for kind, p := range c06Prefix {
+		if len(key) >= len(p) && key[:len(p)] == p {
+			return kind
+		}
+	}
+	return ""
+}
+
+func c06Exists(db objects.Store, kind string, id []byte) bool {
+	switch kind {
+	case "block":
+		return objects.BlockExist(db, id)
+	case "blockindex":
+		return objects.BlockIndexExist(db, id)
+	case "table":
+		return objects.TableExist(db, id)
+	case "tableindex":
+		return objects.TableIndexExist(db, id)
+	case "commit":
+		return objects.CommitExist(db, id)
+	}
+	return db.Exist(append([]byte(c06Prefix[kind]), id...))
+}
+
+// c06Typed reads the object through its typed getter and writes it again.
+func c06Typed(db objects.Store, kind string, id []byte) (out *string) {
+	defer func() {
+		if e := recover(); e != nil {
+			out = strp("panic")
+		}
+	}()
+	b := newBuf()
+	var err error
+	switch kind {
+	case "block":
+		var blk [][]string
+		if blk, _, err = objects.GetBlock(db, nil, id); err == nil {
+			_, err = objects.WriteBlockTo(objects.NewStrListEncoder(true), b, blk)
+		}
+	case "blockindex":
+		var idx *objects.BlockIndex
+		if idx, _, err = objects.GetBlockIndex(db, nil, id); err == nil {
+			_, err = idx.WriteTo(b)
+		}
+	case "table":
+		var t *objects.Table
+		if t, err = objects.GetTable(db, id); err == nil {
+			_, err = t.WriteTo(b)
+		}
+	case "tableindex":
+		var rows [][]string
+		if rows, err = objects.GetTableIndex(db, id); err == nil {
+			_, err = objects.WriteBlockTo(objects.NewStrListEncoder(true), b, rows)
+		}
+	case "commit":
+		var c *objects.Commit
+		if c, err = objects.GetCommit(db, id); err == nil {
+			_, err = c.WriteTo(b)
+		}
+	case "profile":
+		var p *objects.TableProfile
+		if p, err = objects.GetTableProfile(db, id); err == nil {
+			_, err = p.WriteTo(b)
+		}
+	}
+	if err != nil {
+		return nil
+	}
+	return strp(hx(b.Bytes()))
+}
+
+func c06DumpStore(db *MemStore) [][]string {
+	all, _ := db.Filter(nil)
+	keys := make([]string, 0, len(all))
+	for k := range all {
+		keys = append(keys, k)
+	}
+	keys = sortedCopy(keys)
+	out := [][]string{}
+	for _, k := range keys {
+		out = append(out, []string{hx([]byte(k)), c06Plain(c06KindOfKey(k), all[k])})
+	}
+	return out
+}
+
+func c06SaveHist(ops []c06StoreOp) Res {
+	return Guard(func() Res {
+		db := NewMemStore()
+		steps := []c06StepObs{}
+		digests := []string{}
+		for _, op := range ops {
+			content := unhx(op.Content)
+			id := unhx(op.Sum)
+			digest := meow.Checksum(0, content)
+			digests = append(digests, hx(digest[:]))
+			obs := c06StepObs{}
+			var err error
+			var sum []byte
+			if op.Op == "save" {
+				if c06ByContent(op.Kind) {
+					id = digest[:]
+				}
+				switch op.Kind {
+				case "block":
+					sum, _, err = objects.SaveBlock(db, nil, content)
+				case "blockindex":
+					sum, _, err = objects.SaveBlockIndex(db, nil, content)
+				case "table":
+					sum, err = objects.SaveTable(db, content)
+				case "commit":
+					sum, err = objects.SaveCommit(db, content)
+				case "tableindex":
+					err = objects.SaveTableIndex(db, id, content)
+				case "profile":
+					err = objects.SaveTableProfile(db, id, content)
+				}
+				if sum != nil {
+					obs.Sum = strp(hx(sum))
+				}
+			} else {
+				switch op.Kind {
+				case "block":
+					err = objects.DeleteBlock(db, id)
+				case "blockindex":
+					err = objects.DeleteBlockIndex(db, id)
+				case "table":
+					err = objects.DeleteTable(db, id)
+				case "commit":
+					err = objects.DeleteCommit(db, id)
+				case "tableindex":
+					err = objects.DeleteTableIndex(db, id)
+				case "profile":
+					err = objects.DeleteTableProfile(db, id)
+				}
+			}
+			obs.Err = err != nil
+			obs.Exists = c06Exists(db, op.Kind, id)
+			var raw []byte
+			if op.Kind == "block" {
+				raw, err = objects.GetBlockBytes(db, id)
+			} else {
+				raw, err = db.Get(append([]byte(c06Prefix[op.Kind]), id...))
+			}
+			if err == nil {
+				obs.Stored = strp(c06Plain(op.Kind, raw))
+			}
+			if op.Op == "save" && op.Valid {
+				obs.Typed = c06Typed(db, op.Kind, id)
+			}
+			steps = append(steps, obs)
+		}
+		return Ok(map[string]interface{}{"steps": steps, "state": c06DumpStore(db), "digests": digests})
+	})
+}
+
+// c06HistoryShape: does the history write a key that holds other content / the same content already?
+func c06HistoryShape(ops []c06StoreOp) (rekeyed, resaved bool) {
+	held := map[string]string{}
+	for _, op := range ops {
+		id := op.Sum
+		if op.Op == "save" && c06ByContent(op.Kind) {
+			d := meow.Checksum(0, unhx(op.Content))
+			id = hx(d[:])
+		}
+		k := op.Kind + "/" + id
+		if op.Op == "delete" {
+			delete(held, k)
+			continue
+		}
+		if prev, ok := held[k]; ok {
+			if prev == op.Content {
+				resaved = true
+			} else {
+				rekeyed = true
+			}
+		}
+		held[k] = op.Content
+	}
+	return
+}
+
+func genSmallRows(r *rand.Rand, n, nc int) [][]string {
+	rows := make([][]string, n)
+	for i := range rows {
+		rows[i] = make([]string, nc)
+		for c := range rows[i] {
+			rows[i][c] = genCell(r)
+		}
+	}
+	return rows
+}
+
+// genObjectBytes writes a well-formed object of the kind with the system's own encoder.
+func genObjectBytes(r *rand.Rand, kind string) []byte {
+	b := newBuf()
+	switch kind {
+	case "block", "tableindex":
+		objects.WriteBlockTo(objects.NewStrListEncoder(true), b, genSmallRows(r, 1+r.Intn(4), 1+r.Intn(3)))
+	case "blockindex":
+		nc := 1 + r.Intn(3)
+		idx, err := objects.IndexBlock(objects.NewStrListEncoder(true), meow.New(0), genSmallRows(r, 1+r.Intn(5), nc), []uint32{uint32(r.Intn(nc))})
+		if err != nil {
+			panic(err)
+		}
+		idx.WriteTo(b)
+	case "table":
+		nb := r.Intn(3)
+		t := &objects.Table{Columns: genSmallRows(r, 1, 1+r.Intn(4))[0], PK: []uint32{0}}
+		for i := 0; i < nb; i++ {
+			t.Blocks = append(t.Blocks, []byte(genBytes(r, 16)))
+			t.BlockIndices = append(t.BlockIndices, []byte(genBytes(r, 16)))
+		}
+		if nb > 0 {
+			t.RowsCount = uint32((nb-1)*255 + 1 + r.Intn(255))
+		}
+		t.WriteTo(b)
+	case "commit":
+		c := &objects.Commit{Table: []byte(genBytes(r, 16)), AuthorName: genCell(r), AuthorEmail: genCell(r), Message: genCell(r),
+			Time: time.Unix(r.Int63n(4000000000), 0).In(time.FixedZone("", []int{0, 3600, -3600, 19800, -34200}[r.Intn(5)]))}
+		for i := 0; i < r.Intn(3); i++ {
+			c.Parents = append(c.Parents, []byte(genBytes(r, 16)))
+		}
+		c.WriteTo(b)
+	case "profile":
+		if r.Intn(3) == 0 {
+			// what an earlier profiler left behind: names and a row count, no statistics
+			p := &objects.TableProfile{Version: uint32(r.Intn(2)), RowsCount: uint32(r.Intn(1000))}
+			for i := 0; i < 1+r.Intn(3); i++ {
+				p.Columns = append(p.Columns, &objects.ColumnProfile{Name: string(rune('a' + i))})
+			}
+			p.WriteTo(b)
+		} else {
+			nc := 1 + r.Intn(3)
+			cols := make([]string, nc)
+			for i := range cols {
+				cols[i] = string(rune('a' + i))
+			}
+			pr := dprof.NewProfiler(cols)
+			for _, row := range genSmallRows(r, 1+r.Intn(12), nc) {
+				if r.Intn(2) == 0 {
+					row[0] = itoa(r.Intn(50))
+				}
+				pr.Process(row)
+			}
+			pr.Summarize().WriteTo(b)
+		}
+	}
+	return append([]byte{}, b.Bytes()...)
+}
+
+func genStoreHistory(r *rand.Rand) []c06StoreOp {
+	all := []string{"tableindex", "profile", "tableindex", "profile", "block", "blockindex", "table", "commit"}
+	var focus []string
+	for i := 0; i < 1+r.Intn(3); i++ {
+		focus = append(focus, all[r.Intn(len(all))])
+	}
+	sums := []string{genSum(r), genSum(r)}
+	type item struct {
+		content []byte
+		valid   bool
+	}
+	pool := map[string][]item{}
+	for _, k := range focus {
+		if pool[k] != nil {
+			continue
+		}
+		for i := 0; i < 2+r.Intn(2); i++ {
+			if r.Intn(6) == 0 {
+				pool[k] = append(pool[k], item{[]byte(genBytes(r, r.Intn(60))), false})
+			} else {
+				pool[k] = append(pool[k], item{genObjectBytes(r, k), true})
+			}
+		}
+	}
+	ops := []c06StoreOp{}
+	for i := 0; i < 2+r.Intn(7); i++ {
+		k := focus[r.Intn(len(focus))]
+		it := pool[k][r.Intn(len(pool[k]))]
+		d := meow.Checksum(0, it.content)
+		op := c06StoreOp{Kind: k}
+		if r.Intn(4) == 0 {
+			op.Op = "delete"
+			if c06ByContent(k) {
+				op.Sum = hx(d[:])
+			} else {
+				op.Sum = sums[r.Intn(3)%2]
+			}
+		} else {
+			op.Op = "save"
+			op.Content, op.Valid = hx(it.content), it.valid
+			if !c06ByContent(k) {
+				op.Sum = sums[r.Intn(3)%2]
+			}
+		}
+		ops = append(ops, op)
+	}
+	return ops
+}
+
+// ---- derived objects refreshed over an existing state -------------------------------------------
+//
+// The table index and the table profile of a stored table are recomputed by ingest.IndexTable /
+// ingest.ProfileTable (`wrgl profile --refresh`, re-indexing what a receive left behind) while their
+// keys already hold something: the objects of another table, of an earlier profiler, damaged bytes,
+// the same bytes, or nothing. What the refresh writes must be what reads back, so the outcome may
+// not depend on that state: the reference is the same refresh on a copy of the store in which both
+// keys are absent. Every other object of the store must be left as it was.
+
+func genRefresh(r *rand.Rand) c06Input {
+	t := GenTable(r, 1+r.Intn(4), 1+r.Intn(600), []int{0}, 0)
+	in := c06Input{Spec: t, Mode: []string{"other-table", "other-table", "older-profiler", "damaged", "same", "absent"}[r.Intn(6)]}
+	if in.Mode == "other-table" {
+		in.StaleSpec = GenTable(r, len(t.Columns), 1+r.Intn(600), []int{0}, 0)
+	}
+	return in
+}
+
+func c06CopyStore(db *MemStore) *MemStore {
+	cp := NewMemStore()
+	all, _ := db.Filter(nil)
+	for k, v := range all {
+		cp.Set([]byte(k), v)
+	}
+	return cp
+}
+
+func c06RestDigest(db *MemStore, except ...string) string {
+	h := meow.New(0)
+	for _, kv := range c06DumpStore(db) {
+		skip := false
+		for _, e := range except {
+			if kv[0] == hx([]byte(e)) {
+				skip = true
+			}
+		}
+		if !skip {
+			h.Write([]byte(kv[0] + "=" + kv[1] + ";"))
+		}
+	}
+	return hx(h.Sum(nil))
+}
+
+func c06Refresh(t *TableSpec, mode string, staleSpec *TableSpec) Res {
+	return Guard(func() Res {
+		db := NewMemStore()
+		sum, err := IngestCSV(db, t.CSV(0), t.PK, IngestCfg{})
+		if err != nil {
+			return Err("ingest")
+		}
+		tbl, err := objects.GetTable(db, sum)
+		if err != nil {
+			return Err("get-table")
+		}
+		pk, ik := "tblsum/"+string(sum), "tblidx/"+string(sum)
+		refresh := func(s *MemStore) (string, string, bool) {
+			if err := ingest.ProfileTable(s, sum, tbl); err != nil {
+				return "", "", false
+			}
+			if err := ingest.IndexTable(s, sum, tbl, logr.Discard()); err != nil {
+				return "", "", false
+			}
+			p, err1 := s.Get([]byte(pk))
+			i, err2 := s.Get([]byte(ik))
+			if err1 != nil || err2 != nil {
+				return "", "", false
+			}
+			return hx(p), hx(i), true
+		}
+		// reference: the refresh onto absent keys
+		fresh := c06CopyStore(db)
+		fresh.Delete([]byte(pk))
+		fresh.Delete([]byte(ik))
+		refP, refI, ok := refresh(fresh)
+		if !ok {
+			return Err("refresh-reference")
+		}
+		// the state the refresh meets
+		ingP, _ := db.Get([]byte(pk))
+		ingI, _ := db.Get([]byte(ik))
+		switch mode {
+		case "other-table":
+			odb := NewMemStore()
+			osum, err := IngestCSV(odb, staleSpec.CSV(0), staleSpec.PK, IngestCfg{})
+			if err != nil {
+				return Err("ingest-stale")
+			}
+			op, _ := odb.Get(append([]byte("tblsum/"), osum...))
+			oi, _ := odb.Get(append([]byte("tblidx/"), osum...))
+			db.Set([]byte(pk), op)
+			db.Set([]byte(ik), oi)
+		case "older-profiler":
+			p := &objects.TableProfile{Version: 0, RowsCount: uint32(len(t.Rows))}
+			for _, c := range t.Columns {
+				p.Columns = append(p.Columns, &objects.ColumnProfile{Name: c})
+			}
+			b := newBuf()
+			p.WriteTo(b)
+			db.Set([]byte(pk), b.Bytes())
+			b2 := newBuf()
+			objects.WriteBlockTo(objects.NewStrListEncoder(true), b2, [][]string{{""}})
+			db.Set([]byte(ik), b2.Bytes())
+		case "damaged":
+			db.Set([]byte(pk), ingP[:len(ingP)/2])
+			db.Set([]byte(ik), ingI[:len(ingI)/2])
+		case "absent":
+			db.Delete([]byte(pk))
+			db.Delete([]byte(ik))
+		}
+		staleP, _ := db.Get([]byte(pk))
+		staleI, _ := db.Get([]byte(ik))
+		staleP, staleI = append([]byte{}, staleP...), append([]byte{}, staleI...)
+		before := c06RestDigest(db, pk, ik)
+		gotP, gotI, ok := refresh(db)
+		if !ok {
+			return Err("refresh")
+		}
+		out := map[string]interface{}{"refProfile": refP, "refIndex": refI, "gotProfile": gotP, "gotIndex": gotI,
+			"staleProfile": hx(staleP), "staleIndex": hx(staleI), "restBefore": before, "restAfter": c06RestDigest(db, pk, ik),
+			"typedProfile": c06Typed(db, "profile", sum), "typedIndex": c06Typed(db, "tableindex", sum), "rows": len(t.Rows)}
+		return Ok(out)
+	})
 }
